@@ -249,8 +249,10 @@ def impl_builtin(case):
     n, m = case["n"], case["m"]
     try:
         det = SBS(_mk_score(case["score"]), threshold_scale=case["scale"], level=case["level"], min_segment_length=m,
-                  max_interval_length=case["mx"], growth_factor=case["g"]).fit(X)
-        y = det.predict(X)
+                  max_interval_length=case["mx"], growth_factor=case["g"]).fit(core.wrap_container(case, X))
+        # ndarray or DataFrame; the fitted detector may have been used on other data with the same index before
+        core.prior_use(det, case, X)
+        y = det.predict(core.wrap_container(case, X))
         T = det.scores
         ivs = [(int(a), int(b)) for a, b in zip(T["start"], T["end"])]
         sc = to_change_score(_mk_score(case["score"])).fit(X)
